@@ -14,6 +14,7 @@ META = {
         'amounts: unbounded rationals, every mixture of decimal / fraction flavour per operand',
         'all ordered in-type unit pairs of the 13 linear predefined types (both tiers); unit '
         'triples seeded (quick) / exhaustive (thorough); unit-vs-unit comparisons exhaustive',
+        'user type with 7 units declared in every accepted form (int in a term, int * unit, Decimal, Fraction, chained): all 49 pairs',
     ],
     'outside_bounds': ['types converted through converters (C14), money (C08)',
                        'sorting of more than 3 quantities'],
@@ -51,6 +52,8 @@ def jobs(tier, seed):
     for ch in C.chunks(pairs, 8):
         out.append({'fn': 'cmp_units', 'cfg': {'pairs': ch}})
     out.append({'fn': 'cmp_units_user', 'cfg': {}})
+    out.append({'fn': 'cmp_user', 'cfg': {'fa': 'dec', 'fb': 'frac'}})
+    out.append({'fn': 'cmp_user', 'cfg': {'fa': 'frac', 'fb': 'dec'}})
     out.append({'fn': 'cmp_pair', 'cfg': {'fa': 'dec', 'fb': 'frac', 'pairs': [['km', 'mi']],
                                           'canary': True}, 'canary': True})
     LAST_CONFIG_INFO.clear()
@@ -115,6 +118,27 @@ def cmp_units(E, cfg):
     su, sv = C.scale(u), C.scale(v)
     for name, op in OPS:
         E.check(bool(op(u, v)) == bool(op(su, sv)), 'unit-%s-by-scale' % name, info=[us, vs])
+
+
+def cmp_user(E, cfg):
+    """units of a user type declared in every accepted form (int in a term, int * unit, Decimal, Fraction, chained)"""
+    from quantity import Quantity
+    T, units = C.user_linear_type()
+    syms = sorted(units)
+    us, vs = E.choice('pair', [(x, y) for x in syms for y in syms])
+    (u, su), (v, sv) = units[us], units[vs]
+    a = E.rational('a', cfg['fa'])
+    b = E.rational('b', cfg['fb'])
+    qa, qb = Quantity(a, u), Quantity(b, v)
+    for name, op in OPS:
+        E.check(E.Iff(op(qa, qb), op(a * su, b * sv)), 'user-cmp-%s-agrees-with-reference' % name,
+                key='user-cmp:' + name, info=[us, vs])
+        E.check(bool(op(u, v)) == bool(op(su, sv)), 'user-unit-%s-by-scale' % name, key='user-unit-cmp:' + name,
+                info=[us, vs])
+    lst = sorted([qa, qb, Quantity(a, v)])
+    refs = [q.amount * units[q.unit.symbol][1] for q in lst]
+    E.check(E.And(refs[0] <= refs[1], refs[1] <= refs[2]), 'user-sorted-by-reference-value', key='user-cmp:sorted',
+            info=[us, vs])
 
 
 def cmp_units_user(E, cfg):
